@@ -292,8 +292,11 @@ def join(vs):
             anc=F().union(*[v.anc for v in vs]), deps=F().union(*[v.deps for v in vs]), deg=deg,
             fresh=all(v.fresh for v in vs), label=all(v.label for v in vs if v.k == "E"),
             shares=F().union(*[v.shares for v in vs]), ek=F().union(*[v.ek for v in vs]), meths=meths)
-    if k == "dict" and all(v.k == "dict" and v.kelem is not None for v in vs):
-        out.kelem = join([v.kelem for v in vs])
+    if k == "dict":
+        # (a dict that is still empty — `d = {}` before the loop that fills it — says nothing about the keys)
+        filled = [v for v in vs if v.k == "dict" and not (v.elem is None and v.kelem is None and not v.meths)]
+        if filled and all(v.kelem is not None for v in filled) and all(v.k == "dict" for v in vs):
+            out.kelem = join([v.kelem for v in filled])
     if JOIN_KEEPS_ALTS and k == "E" and all(v.k == "E" for v in vs):
         # "one of these values" (outcomes of a dispatch over methods / receiver classes): the alternatives stay apart,
         # so that a parent recorded by one outcome does not hide its absence in another
